@@ -78,6 +78,20 @@ def r04_1(ctx):
     key = 'stroke::cap_line'
     # what cap_line emits per cap kind, however the dispatch on style.cap is spelled
     vp = shared.variant_call_paths(ctx, b, lambda t: field_path(t) == (('param', 2), ['cap']), 'raqote::stroke::LineCap')
+    if vp is None:
+        # the cap kind handed in by value: then every caller must hand in its style's cap
+        cps = [i for i in range(1, b.argc + 1) if b.local_ty(i).endswith('stroke::LineCap')]
+        if len(cps) == 1:
+            vp = shared.variant_call_paths(ctx, b, lambda t: strip_all(t) == ('param', cps[0]), 'raqote::stroke::LineCap')
+            if vp is not None:
+                bad_callers = []
+                for q2, b2 in ctx.F.bodies.items():
+                    for bi2, d2, ct2 in calls_in(ctx, b2):
+                        if d2 == ST + 'cap_line':
+                            a = strip_all(ct2[2][cps[0] - 1])
+                            if not (a[0] == 'field' and a[2] == 'cap' and (a[3] or '').endswith('StrokeStyle')):
+                                bad_callers.append(short(q2))
+                ctx.check(not bad_callers, R, key + '|callers pass style.cap', b.loc(), 'every caller passes its style.cap', 'cap_line takes the cap kind as a parameter and %s do not pass style.cap' % sorted(set(bad_callers)))
     if ctx.check(vp is not None and set(vp) == {'Butt', 'Round', 'Square'} and all(vp[v] for v in vp), R, key + '|match', b.loc(), 'cap_line dispatches on style.cap for Butt, Round and Square',
                  'cannot read cap_line as a dispatch on style.cap over Butt/Round/Square (fail closed)'):
         for v in ('Butt', 'Round', 'Square'):
